@@ -593,6 +593,14 @@ impl<'a> Gen<'a> {
                 }
             }
         }
+        if self.rng.chance(cfg.p_custom_ext, 400) && !paths.iter().any(|p| p.ends_with(".markdown")) {
+            // a mapping may also override an extension blockwatch knows: `-E rb=markdown` makes every
+            // `.rb` file a Markdown file (`finish` writes them accordingly)
+            let ext = *self.rng.pick(&["py", "rb", "sh"]);
+            if !self.world.args.extensions.iter().any(|(k, v)| k == ext || v == ext) {
+                self.world.args.extensions.push((ext.to_string(), "markdown".into()));
+            }
+        }
         for (p, lang) in paths.into_iter().zip(langs) {
             let nb = self.rng.range(cfg.blocks.0, cfg.blocks.1);
             let mut f = FileSpec {
@@ -602,6 +610,7 @@ impl<'a> Gen<'a> {
                 bom: self.rng.chance(1, 10),
                 spelling: if self.rng.chance(1, 6) { self.rng.next_u64() | 1 } else { 0 },
                 block_comments: if self.rng.chance(1, 5) { self.rng.next_u64() | 1 } else { 0 },
+                no_final_newline: self.rng.chance(1, 10),
                 ..Default::default()
             };
             for _ in 0..nb {
@@ -884,6 +893,17 @@ impl<'a> Gen<'a> {
             } else if model::known_extension(&f.path, &[]) {
                 // re-named by a generator after `gen_files`: its own extension decides again
                 f.lang = None;
+            }
+        }
+        if !self.world.args.list && self.rng.chance(1, 8) {
+            self.world.args.dashdash = true;
+        }
+        // what else a real diff carries: binary files, mode changes
+        if self.rng.chance(1, 5) {
+            let n = 1 + self.rng.below(2);
+            for _ in 0..n {
+                let k = *self.rng.pick(&["binary", "new-binary", "mode"]);
+                self.world.diff_noise.push(k.to_string());
             }
         }
         // `git diff` shows three unchanged lines around a change unless told otherwise
